@@ -14,6 +14,9 @@ def main():
     elif pid == 'C04':
         import stream
         stream.main(pid, 'quick' if tier == 'replay' else tier, rp)
+    elif pid == 'C12':
+        import after
+        after.main(pid, 'quick' if tier == 'replay' else tier, rp)
     elif pid in ('C05', 'C06', 'C07', 'C08', 'C09'):
         import conn
         conn.main(pid, 'quick' if tier == 'replay' else tier, rp)
